@@ -190,7 +190,12 @@ def server_scenario(r, length=None, small=False):
                 es.append(sub_entry(r, SERVICES[r.randrange(ninst)], 5, r.choice(TTLS), 0, 1, ep_n=a))
             if r.random() < 0.12:
                 peers[a].reboot()
-            raw.append((t, ("dg", a, r.random() < 0.1, es)))
+            mixed = r.random() < 0.2
+            if mixed:
+                # entries of different kinds in ONE message: a FindService before or behind the Subscribe(s)
+                fe = r.choice(FILTERS + [SERVICES[0], SERVICES[1]]).create_find_entry(3)
+                es = [fe] + es if r.random() < 0.4 else es + [fe]
+            raw.append((t, ("dg", a, r.random() < (0.4 if mixed else 0.1), es)))
             if 0 < ttl < 0xFFFFFF:
                 deadlines.append(t + ttl * T)
         elif c < 0.47:
@@ -270,6 +275,9 @@ EGS = [
     C.Eventgroup(0x1111, 1, 1, 5, ("10.0.0.9", 4100), H.L4Protocols.UDP),
     C.Eventgroup(0x1111, 1, 1, 6, ("2001:db8::9", 4101, 0, 0), H.L4Protocols.TCP),
     C.Eventgroup(0x2222, 1, 2, 9, ("10.0.0.9", 4102), H.L4Protocols.TCP),
+    # the same local socket address as the first one, the other transport protocol (UDP and TCP share the port)
+    C.Eventgroup(0x2222, 1, 2, 10, ("10.0.0.9", 4100), H.L4Protocols.TCP),
+    C.Eventgroup(0x1111, 1, 1, 7, ("2001:db8::9", 4101, 0, 0), H.L4Protocols.UDP),
 ]
 
 
